@@ -22,7 +22,7 @@ MSEL = mcq("MC_MaskSelect")
 #   mc:   per tier, list of (module, cfg) model-checking runs (read nothing from /repo)
 PROPS = {
     "C01": dict(scen=[("core", "cells", True), ("core", "lengths", True)], mc=PIPE, invariants="RoundTripInv (MC), RoundTrip (TV)"),
-    "C02": dict(scen=[("core", "cells", True), ("core", "corrupt", True), ("hooked", "tables", False)], mc=mc_join(PIPE, LEMMAS),
+    "C02": dict(scen=[("core", "cells", True), ("core", "nearblocks", True), ("core", "corrupt", True), ("hooked", "tables", False)], mc=mc_join(PIPE, LEMMAS),
                 invariants="BlocksValidInv (MC), CodewordCount/RemainderBitsZero/BlockShape/SyndromesZero + Corrupt/Recover (TV), BMLemma"),
     "C03": dict(scen=[("core", "cells", True), ("hooked", "maskop", False), ("hooked", "tables", False)], mc=mc_join(PIPE, LEMMAS),
                 invariants="FunctionPatternsInv (MC), FunctionPatternsExact/NothingOutsideSquare (TV), LayoutLemmas"),
@@ -32,7 +32,7 @@ PROPS = {
                 invariants="MinimalVersionInv, OutcomeTotal (MC), MinimalVersion/ExpectedOutcome (TV), EncodeLemmas (monotonicity)"),
     "C06": dict(scen=[("core", "cells", True), ("core", "lengths", True), ("hooked", "encode", False), ("hooked", "tables", False)], mc=PIPE,
                 invariants="DataCodewordsISOInv, StagedEqualsClosedForm (MC), DataCodewordsISO (TV)"),
-    "C07": dict(scen=[("core", "cells", True), ("hooked", "rs", False)], mc=mc_join(PIPE, LEMMAS),
+    "C07": dict(scen=[("core", "cells", True), ("core", "nearblocks", True), ("hooked", "rs", False)], mc=mc_join(PIPE, LEMMAS),
                 invariants="ECIsRemainderInv (MC), ECIsRemainder/Poly/Division/DivBlock (TV), FieldLemmas"),
     "C08": dict(scen=[("core", "maskgroups", True), ("hooked", "maskop", False)], mc=mc_join(PIPE, LEMMAS),
                 invariants="MaskExactInv (MC), same-unmasked-symbol per group + MaskOp (TV), MaskLemmas"),
@@ -45,7 +45,7 @@ PROPS = {
                 invariants="LabelsExact, DataLabelCount (TV), FunctionPatternsInv (MC), LayoutLemmas"),
 }
 PROPS.update({
-    "C12": dict(scen=[("core", "svg", True), ("core", "callbacks", True)], mc=mcq("MC_Render"),
+    "C12": dict(scen=[("core", "svg", True), ("core", "callbacks", True), ("core", "sessions", True)], mc=mcq("MC_Render"),
                 invariants="SvgStructure/SvgBackground/SvgLayerCount/SvgCells/SvgLayerColors/SvgImage over the register machine RegsAfter(program) (TV); MC_Render: render/decode round trips of the model"),
     "C13": dict(scen=[("core", "raster", True)], mc=mcq("MC_Render"),
                 invariants="RasterSide/RasterCentres/RasterUniform/RasterPng over RegsAfter(program) (TV)"),
@@ -53,7 +53,7 @@ PROPS.update({
                 invariants="TextShape/TextBorder/TextModules (TV); MC_Render: decode o TextOf = id on all 0/1 matrices of a small side"),
     "C17": dict(scen=[("hooked|wasm", "wasm", True)], mc={"quick": [], "thorough": []},
                 invariants="HavocExact, TypeOK (MC_Wasm, GEN); WasmNeverTraps, WasmEqualsNative = Render predicates on NativeOf(W_After(program)) + string equality with the native output (TV)"),
-    "C18": dict(scen=[("core", "frames", True)], mc=mcq("MC_Render"),
+    "C18": dict(scen=[("core", "frames", True), ("core", "sessions", True)], mc=mcq("MC_Render"),
                 invariants="FrameDefault, FrameImageCentred, monotone frame side (FrameSweep), FrameOverrides (TV)"),
     "C19": dict(scen=[("core", "fileio", True)], mc={"quick": [], "thorough": []}, apalache=["FileInd"],
                 invariants="FileAllOrError (MC_FileIO, GEN -> replay), F_Run(fault, AbsOff(limit, len)) = observed return (TV); FileInd: inductive invariant for any number of chunks (Apalache)"),
@@ -61,7 +61,7 @@ PROPS.update({
 # scenarios whose programs / behaviours are generated by TLC from a machine of the specification (GEN -> replay -> TV)
 GEN = {"fileio": ("FileIO.tla", "MC_FileIO.cfg", False), "wasm": ("MC_Wasm.tla", "MC_Wasm_{tier}.cfg", True),
        "histories": ("MC_Builder.tla", "MC_Builder_{variant}_{tier}.cfg", False)}
-PROPS["C14"] = dict(scen=[("core", "histories:SeqEclMask", True), ("core", "histories:SeqModeVersion", True), ("core", "histories:EclMask", True), ("core", "histories:ModeVersion", True), ("core", "histories:EclVersion", True), ("core", "threads", True)],
+PROPS["C14"] = dict(scen=[("core", "histories:SeqEclMask", True), ("core", "histories:SeqModeVersion", True), ("core", "histories:EclMask", True), ("core", "histories:ModeVersion", True), ("core", "histories:EclVersion", True), ("core", "threads", True), ("core", "sessions", True)],
                     mc={"quick": [], "thorough": []},
                     invariants="Deterministic, SnapshotIsRegisters, BuildReadOnly (MC_Builder, every interleaving of 2 builders x 2 threads; GEN -> replay); HNew/HSet/HBuild judged on the registers the model holds, equal registers => equal results, renders read-only and repeatable (TV)")
 
